@@ -41,7 +41,7 @@ Definition vpc (c : cfg) (p : pc) (e : event) : list pc :=
   | EReconnectReturned false | ERemoveReturned false =>
       match p with PIdle => [p] | _ => [] end
   | ERemoveReturned true => [p]
-  | XCalled _ | XReturned _ _ | EGateClosed | EGateOpen => [p]
+  | XCalled _ | XReturned _ _ | EGateClosed | EGateOpen | EAddInvalid _ => [p]
   | EHang | EStall => []
   | ECred ok => match p with PMeta => [if ok then PConnCheck (c_hops c) else PCE] | _ => [] end
   | EDial ok => match p with PDial l => [if ok then PSubCheck else PConnCheck l] | _ => [] end
@@ -86,7 +86,7 @@ Lemma vis_pc c s e s' : In s' (vis c s e) -> In (s_pc s') (vpc c (s_pc s) e).
 Proof.
   destruct s as [p rmc cd sd rc hu stl phu ad xs rr]. unfold vis, managed; cbn [s_pc s_rmc s_cdone s_sdone s_rc s_hu s_stale s_phu s_add s_x s_rr].
   intros H.
-  destruct e as [ |ok| |ok| |ok| | |ok|ok| |ok|ok|r| |n| | | | |k|k ok| | ]; cbn in H |- *;
+  destruct e as [ |ok| |ok| |ok| | |ok|ok| |ok|ok|r| |n| | | | |k|k ok| | |ok]; cbn in H |- *;
     inv_in H; subst; cbn; auto.
   all: destruct p; cbn in *; auto; discriminate.
 Qed.
@@ -159,7 +159,7 @@ Lemma Rlang_vis c p e p' d :
   In p' (vpc c p e) -> Rlang p d -> exists d', dstep_all d e = Some d' /\ Rlang p' d'.
 Proof.
   unfold dstep_all.
-  destruct e as [ |ok| |ok| |ok| | |ok|ok| |ok|ok|r| |n| | | | |k|k ok| | ]; cbn; intros H HR;
+  destruct e as [ |ok| |ok| |ok| | |ok|ok| |ok|ok|r| |n| | | | |k|k ok| | |ok]; cbn; intros H HR;
     inv_in H; subst; cbn in *;
     repeat match goal with
            | H : _ \/ _ |- _ => destruct H
@@ -270,7 +270,7 @@ Qed.
 Lemma Rstream_vis c p e p' m :
   In p' (vpc c p e) -> Rstream p m -> exists m', mstep m e = Some m' /\ Rstream p' m'.
 Proof.
-  destruct e as [ |ok| |ok| |ok| | |ok|ok| |ok|ok|r| |n| | | | |k|k ok| | ]; cbn; intros H HR;
+  destruct e as [ |ok| |ok| |ok| | |ok|ok| |ok|ok|r| |n| | | | |k|k ok| | |ok]; cbn; intros H HR;
     inv_in H; subst; cbn in *; subst; cbn;
     repeat match goal with
            | b : bool |- _ => destruct b
@@ -407,7 +407,7 @@ Lemma k_silence_orun tr : forall n pend,
   k_silence_n n pend tr = true <-> orun sstep (n, pend) tr <> None.
 Proof.
   induction tr as [|e tr IH]; intros n pend; cbn; [split; congruence|].
-  destruct e as [ |ok| |ok| |ok| | |ok|ok| |ok|ok|r| |n0| | | | |k|k ok| | ]; cbn; try apply IH;
+  destruct e as [ |ok| |ok| |ok| | |ok|ok| |ok|ok|r| |n0| | | | |k|k ok| | |ok]; cbn; try apply IH;
     try (destruct ok; cbn; apply IH);
     try (destruct k; cbn; try apply IH; destruct ok; cbn; apply IH);
     destruct (Nat.eqb n 0); cbn; try apply IH; split; congruence.
@@ -428,6 +428,7 @@ Definition rstep (x : nat * bool) (e : event) : option (nat * bool) :=
       if Bool.eqb ok (negb (Nat.eqb meff 0)) then Some (if ok then pred m else m, rmp) else None
   | XReturned KReconnect ok =>
       if Bool.eqb ok (negb (Nat.eqb meff 0)) then Some x else None
+  | EAddInvalid ok => if negb ok then Some x else None
   | _ => Some x
   end.
 
@@ -435,7 +436,7 @@ Lemma k_refuse_orun tr : forall m rmp,
   k_refuse_n m rmp tr = true <-> orun rstep (m, rmp) tr <> None.
 Proof.
   induction tr as [|e tr IH]; intros m rmp; cbn; [split; congruence|].
-  destruct e as [ |ok| |ok| |ok| | |ok|ok| |ok|ok|r| |n0| | | | |k|k ok| | ]; cbn; try apply IH.
+  destruct e as [ |ok| |ok| |ok| | |ok|ok| |ok|ok|r| |n0| | | | |k|k ok| | |ok]; cbn; try apply IH.
   all: try (destruct k; cbn).
   all: match goal with
        | |- context [Bool.eqb ?a ?b] => destruct (Bool.eqb a b); cbn; [apply IH|split; congruence]
@@ -522,7 +523,7 @@ Proof.
   unfold Rinv, istep, vis, wfb, sil_base, sil_pend, ref_m, managed, add_none, rc_none, x_none, x_addst, x_eff.
   cbn [s_pc s_rmc s_cdone s_sdone s_rc s_hu s_stale s_phu s_add s_x s_rr fst snd].
   intros H (W & Hp & Hn & Hm & Hr).
-  destruct e as [ |ok| |ok| |ok| | |ok|ok| |ok|ok|r| |n0| | | | |k|k ok| | ];
+  destruct e as [ |ok| |ok| |ok| | |ok|ok| |ok|ok|r| |n0| | | | |k|k ok| | |ok];
     cbn [sstep rstep is_marker orb];
     inv_in H; subst s'; cbn [s_pc s_rmc s_cdone s_sdone s_rc s_hu s_stale s_phu s_add s_x s_rr set_pc] in *.
   all: subst; try (eexists; split; [reflexivity|]; adaptive; fail).
